@@ -271,6 +271,15 @@ ConsistentSnapshot ==
 AtomicRead ==
   (WithA /\ pc["A"] = "done") => res["A"][1] \in loc["A"].seen
 
+(* the hypotheses of proofs/SnapshotProof.tla, checked on this code-grain model (they hold with HorizonLock and RangeDraw,  *)
+(* and TLC refutes them without): while the collector works with a horizon it has picked, the horizon is not above the     *)
+(* number a snapshot Begin has drawn; the numbers a commit publishes under are not separated by a snapshot's number         *)
+HorizonBelowL2 ==
+  (WithG /\ WithR /\ pc["G"] \in {"gc.horizon", "core.deleteOld", "core.deleteOld.lock"}
+         /\ pc["R"] \notin {"start", "begin.enter", "seq.next"})
+    => loc["G"].h <= loc["R"].bseq
+DesignHypotheses == (HorizonLock => HorizonBelowL2)
+
 Outcome == [sched |-> sched, res |-> [a \in Actors |-> res[a]]]
 Cex == PrintT(<<"X", ToJson(<<Outcome>>)>>)
 XFirstCommitterWins == FirstCommitterWins \/ ~Cex
